@@ -188,6 +188,8 @@ def run(ctx):
     s_extreme(st, jobs)
     s_representation(st)
     s_scale(st)
+    s_descriptions(st)
+    s_flux_values(st)
     s_admt(st)
     s_refine(st)
 
@@ -739,12 +741,19 @@ def poly(a, x, y):
     return a[0] + a[1] * x + a[2] * y + a[3] * x * x + a[4] * x * y + a[5] * y * y
 
 
-def check_ops_case(st, cells, dx, dy, x0, y0, nx, ny, stream, representation=None):
+def check_ops_case(st, cells, dx, dy, x0, y0, nx, ny, stream, representation=None, description=None):
     """direct oracles for the derivative operators on one full grid"""
     ctx, rng = st.ctx, st.ctx.rng
     rep = dict(stream=stream, nx=nx, ny=ny, cells=cells, dx=dx, dy=dy, x0=x0, y0=y0)
     sfx, rdesc = '', ''
-    if representation is None:
+    if description is not None:
+        # same grid, described differently (vertex order per voxel, insertion order / type of the two index maps)
+        v, m12, m21 = make_grid(cells, dx, dy, x0, y0)
+        varg, a12, a21 = describe(v, m12, m21, description)
+        status, ops = call(st.A.generate_derivative_operators, varg, a12, a21)
+        rep['description'] = description
+        sfx, rdesc = ':' + description['kind'], ' [grid described with %s, seed %d]' % (description['kind'], description['seed'])
+    elif representation is None:
         v, m12, m21, (status, ops) = gen(st, cells, dx, dy, x0, y0)
     else:
         # same grid, vertices handed over in another representation (dtype / container / memory layout)
@@ -989,6 +998,165 @@ def s_refine(st):
                              dict(stream='S-refine', sizes=sizes, anisotropy=aniso, errors=errs))
 
 
+# ------------------------------------------------------------------------ every legal description of the same grid
+import collections
+import collections.abc
+import random as _random
+import types as _types
+
+
+class PlainMapping(collections.abc.Mapping):
+    """a Mapping that is not a dict (the functions only promise `Mapping`)"""
+
+    def __init__(self, d):
+        self._d = dict(d)
+
+    def __getitem__(self, k):
+        return self._d[k]
+
+    def __iter__(self):
+        return iter(self._d)
+
+    def __len__(self):
+        return len(self._d)
+
+
+CYCLIC = [(0, 1, 2, 3), (1, 2, 3, 0), (2, 3, 0, 1), (3, 0, 1, 2)]
+ANTICYCLIC = [(0, 3, 2, 1), (3, 2, 1, 0), (2, 1, 0, 3), (1, 0, 3, 2)]
+NONCYCLIC = [p for p in __import__('itertools').permutations(range(4)) if p not in CYCLIC and p not in ANTICYCLIC]
+DESCRIPTIONS = ('vertex-order:cyclic', 'vertex-order:anticyclic', 'vertex-order:noncyclic', 'vertex-order:mixed',
+                'map-order:descending', 'map-order:shuffled', 'map-order:inverted-rowwise',
+                'map-type:OrderedDict', 'map-type:MappingProxyType', 'map-type:ChainMap', 'map-type:plain-Mapping',
+                'map-values:list', 'map-values:numpy-int', 'everything')
+
+
+def _reorder(d, keys):
+    return {k: d[k] for k in keys}
+
+
+def describe(v, m12, m21, description):
+    """(vertices, 1d->2d map, 2d->1d map) describing the same voxels and the same 1-D numbering as the canonical
+    (v, m12, m21); deterministic in description['seed']"""
+    kind = description['kind']
+    r = _random.Random(description['seed'])
+    varg, a12, a21 = v.copy(), dict(m12), dict(m21)
+    parts = kind.split(':')
+    every = kind == 'everything'
+    if parts[0] == 'vertex-order' or every:
+        pool = {'cyclic': CYCLIC, 'anticyclic': ANTICYCLIC, 'noncyclic': NONCYCLIC,
+                'mixed': CYCLIC + ANTICYCLIC + NONCYCLIC}['mixed' if every else parts[1]]
+        for i in range(v.shape[0]):
+            varg[i] = v[i][list(r.choice(pool))]
+    if parts[0] == 'map-order' or every:
+        how = r.choice(['descending', 'shuffled', 'inverted-rowwise']) if every else parts[1]
+        if how == 'descending':
+            a12 = _reorder(m12, sorted(m12, reverse=True))
+            a21 = _reorder(m21, sorted(m21, reverse=True))
+        elif how == 'shuffled':
+            k1, k2 = list(m12), list(m21)
+            r.shuffle(k1)
+            r.shuffle(k2)
+            a12, a21 = _reorder(m12, k1), _reorder(m21, k2)
+        else:     # the 2d->1d dict filled row by row, the 1d->2d dict obtained by inverting it
+            a21 = _reorder(m21, sorted(m21, key=lambda c: (c[1], c[0])))
+            a12 = {i: c for c, i in a21.items()}
+    if parts[0] == 'map-values' or every:
+        how = r.choice(['list', 'numpy-int']) if every else parts[1]
+        if how == 'list':
+            a12 = {i: list(c) for i, c in a12.items()}
+        else:
+            a12 = {i: (np.int64(c[0]), np.int32(c[1])) for i, c in a12.items()}
+    if parts[0] == 'map-type' or every:
+        how = r.choice(['OrderedDict', 'MappingProxyType', 'ChainMap', 'plain-Mapping']) if every else parts[1]
+        wrap = {'OrderedDict': collections.OrderedDict, 'MappingProxyType': _types.MappingProxyType,
+                'ChainMap': lambda d: collections.ChainMap({}, d), 'plain-Mapping': PlainMapping}[how]
+        a12, a21 = wrap(a12), wrap(a21)
+    return varg, a12, a21
+
+
+def s_descriptions(st):
+    """a voxel is a set of four corners and the two maps are mappings: the order in which a voxel lists its corners,
+    the insertion order and the concrete type of the maps, and the container of a 2-D index carry no information.
+    Every description goes through the full exactness oracle (independent of the implementation); dyadic grids, so
+    that even the summation order of the four corners cannot change a bit."""
+    ctx, rng = st.ctx, st.ctx.rng
+    grids = [(2, 2), (3, 3), (2, 4), (4, 3)] + [(rng.randint(2, 6), rng.randint(2, 6)) for _ in range(ctx.n(2, 10))]
+    for nx, ny in grids:
+        dx, dy = rng.choice([0.5, 1.0, 2.0, 0.25]), rng.choice([0.5, 1.0, 4.0, 0.125])
+        x0, y0 = float(rng.randint(1, 8)), float(rng.randint(-4, 4))
+        cells = full_cells(nx, ny)
+        v, m12, m21 = make_grid(cells, dx, dy, x0, y0)
+        st0, base = call(st.A.generate_derivative_operators, v.copy(), dict(m12), dict(m21))
+        for kind in DESCRIPTIONS:
+            d = dict(kind=kind, seed=rng.randrange(10 ** 6))
+            ctx.count('S-desc:' + kind)
+            before = len(ctx.failing) + len(ctx.known_hits)
+            check_ops_case(st, cells, dx, dy, x0, y0, nx, ny, 'S-desc', description=d)
+            if st0 == 'ok' and len(ctx.failing) + len(ctx.known_hits) == before:
+                varg, a12, a21 = describe(v, m12, m21, d)
+                s1, o1 = call(st.A.generate_derivative_operators, varg, a12, a21)
+                if s1 == 'ok' and any(not np.array_equal(np.asarray(o1[k]), np.asarray(base[k])) for k in OPS):
+                    ctx.broke('correspondence', 'C20 description ' + kind,
+                              dict(nx=nx, ny=ny, dx=dx, dy=dy, x0=x0, y0=y0, description=d,
+                                   note='operators differ from those of the canonical description although every oracle passes'))
+
+
+# ------------------------------------------------------------------------------- flux maps with special values
+def check_flux_case(st, nx, ny, dx, dy, x0, y0, aniso, variant, offset, stream):
+    """psi -> psi + offset describes the same flux surfaces with the same gradient: the operator must not change, must be
+    finite and must be the discretised div(D grad f) (Laplacian at anisotropy 1) — in particular when the shifted map
+    has maximum / minimum exactly 0, is negative everywhere or contains exact zeros.  psi is integer-valued and the
+    offsets are integers, so psi + offset is exact and the derivatives are bit-identical."""
+    ctx = st.ctx
+    cells = full_cells(nx, ny)
+    v, m12, m21, (status, ops) = gen(st, cells, dx, dy, x0, y0)
+    if status != 'ok':
+        return
+    x = v.mean(axis=1)[:, 0]
+    base = np.array([float((ix + 1) ** 2 + 2 * (iy + 2) ** 2 + (ix + 1) * (iy + 2)) for ix, iy in cells])
+    shift = {'max-zero': -base.max(), 'min-zero': -base.min(), 'all-negative': -base.max() - 7.0,
+             'zero-at-voxel': -base[len(base) // 2], 'offset': offset, 'negated': 0.0}[variant]
+    sign = -1.0 if variant == 'negated' else 1.0
+    psi = sign * base + shift
+    rep = dict(stream=stream, flux_study=True, nx=nx, ny=ny, dx=dx, dy=dy, x0=x0, y0=y0, anisotropy=aniso, variant=variant,
+               offset=offset, psi=[float(t) for t in psi])
+    ctx.case(key=('S-flux', nx, ny, f2b(aniso), variant, f2b(offset)))
+    ctx.count('S-flux:' + variant)
+    jet, N = reference_admt(ops, base, x, dx, dy, aniso)
+    if N.min() <= 0:
+        return
+    status, L = call(st.A.calculate_admt, x, ops, psi, dx, dy, aniso)
+    what = {'max-zero': 'maximum exactly 0', 'min-zero': 'minimum exactly 0', 'all-negative': 'negative everywhere',
+            'zero-at-voxel': 'exactly 0 at one voxel', 'offset': 'offset %g' % offset, 'negated': 'sign reversed'}[variant]
+    if status != 'ok':
+        ctx.fail('C20:calculate_admt:raises:%s:psi-%s' % (status, variant), 'flux map with %s: %s' % (what, L), rep)
+        return
+    if not np.all(np.isfinite(L)):
+        ctx.fail('C20:calculate_admt:not-finite:psi-' + variant,
+                 'flux map with %s (|grad psi|^2 >= %g in every voxel): %d non-finite entries'
+                 % (what, N.min(), int((~np.isfinite(L)).sum())), rep)
+        return
+    rowscale = np.abs(jet).max(axis=1)
+    err = float((np.abs(L - jet).max(axis=1) / rowscale).max())
+    if err > 1e-10:
+        ctx.fail('C20:calculate_admt:depends-on-offset-of-psi' if variant != 'negated' else 'C20:calculate_admt:depends-on-scale-of-psi',
+                 'flux map with %s: the operator differs from the one of the unshifted map / the discretised div(D grad f) '
+                 '(relative row error %.3g)' % (what, err), dict(rep, rel_error=err))
+
+
+def s_flux_values(st):
+    ctx, rng = st.ctx, st.ctx.rng
+    for it in range(ctx.n(4, 20)):
+        nx, ny = rng.randint(2, 6), rng.randint(2, 6)
+        dx, dy = rng.choice([0.5, 1.0, 2.0]), rng.choice([0.25, 1.0, 2.0])
+        x0, y0 = float(rng.randint(1, 6)), float(rng.randint(-3, 3))
+        aniso = 1.0 if it % 2 == 0 else rng.choice([2.0, 10.0, 100.0])
+        for variant in ('max-zero', 'min-zero', 'all-negative', 'zero-at-voxel', 'negated'):
+            check_flux_case(st, nx, ny, dx, dy, x0, y0, aniso, variant, 0.0, 'S-flux')
+        for off in (1.0, -1.0, 1000.0, -1000.0, 2.0 ** 20, -2.0 ** 20):
+            check_flux_case(st, nx, ny, dx, dy, x0, y0, aniso, 'offset', off, 'S-flux')
+
+
 # ------------------------------------------------------------------------------------ S: scale of the flux map
 # The operator depends on psi only through the direction of grad psi (Props: admt_coefficients_scale_invariant).
 # Range of scales: the highest power of psi formed while evaluating the coefficients is 4 (dnorm_term_c*: (D psi_x^2 + ..)
@@ -1076,7 +1244,9 @@ def replay_case(st, r):
     r = r.get('replay', r)
     if 'extreme' not in r and 'cells' in r and 'psi' not in r:
         check_ops_case(st, [tuple(c) for c in r['cells']], r['dx'], r['dy'], r['x0'], r['y0'], r['nx'], r['ny'], 'replay',
-                       representation=r.get('representation'))
+                       representation=r.get('representation'), description=r.get('description'))
+    elif r.get('flux_study'):
+        check_flux_case(st, r['nx'], r['ny'], r['dx'], r['dy'], r['x0'], r['y0'], r['anisotropy'], r['variant'], r.get('offset', 0.0), 'replay')
     elif r.get('scale_study'):
         check_scale_case(st, r['nx'], r['ny'], r['dx'], r['dy'], r['x0'], r['y0'], r['anisotropy'], r['shape'], 'replay',
                          [r['scale']] if 'scale' in r else None)
